@@ -45,10 +45,11 @@ GBetweenness(V, N) ==
   LET d  == TLCEval([a \in V |-> GDist(N, a)])
       sg == TLCEval([a \in V |-> GSigma(N, a)])
       n  == Cardinality(V)
-      Pairs(v) == {p \in (V \ {v}) \X (V \ {v}) : p[1] # p[2] /\ p[2] \in DOMAIN d[p[1]]}
-      Through(v, p) == IF v \in DOMAIN d[p[1]] /\ d[p[1]][v] + d[v][p[2]] = d[p[1]][p[2]]
-                       THEN RNorm(<<sg[p[1]][v] * sg[v][p[2]], sg[p[1]][p[2]]>>) ELSE RZero
-      Raw(v) == LET F(p) == Through(v, p) IN RSumSet(F, Pairs(v))
+      \* pair dependency of (a, b) on v; summed over ordered pairs, one source at a time
+      Through(v, a, b) == IF b \in DOMAIN d[a] /\ v \in DOMAIN d[a] /\ d[a][v] + d[v][b] = d[a][b]
+                          THEN RNorm(<<sg[a][v] * sg[v][b], sg[a][b]>>) ELSE RZero
+      From(v, a) == LET F(b) == Through(v, a, b) IN RSumSet(F, V \ {v, a})
+      Raw(v) == LET G(a) == From(v, a) IN RSumSet(G, V \ {v})
   IN TLCEval([v \in V |-> IF n > 2 THEN RMul(Raw(v), <<1, (n - 1) * (n - 2)>>) ELSE RZero])
 
 GCloseness(V, N) ==
